@@ -412,9 +412,9 @@ func firstLine(s string) string {
 func runChild(exe string, job Job, base string, tier string) *Result {
 	out := base + ".json"
 	jb, _ := json.Marshal(job)
-	limit := "1500"
+	limit := "3000"
 	if tier == "thorough" {
-		limit = "5400"
+		limit = "9000"
 	}
 	cmd := exec.Command("timeout", "-s", "QUIT", limit, exe, "job", string(jb), out)
 	logf, _ := os.Create(base + ".log")
